@@ -1250,6 +1250,22 @@ def run_C20(ctx):
         if good:
             corpus.append({"t": "jit", "case": c})
             spec.append("" if multi[key] > 1 else out)
+    # API histories (every sequence of up to 4 calls over set_program(P1|P2|P7|PX), jit_compile, exec,
+    # exec_jit on the raw and the fixed-metadata VM; seeded longer ones) and compilation into one page
+    # of caller-supplied memory around the size where the code stops fitting
+    import itertools, random
+    alphabet = [["set_program", "P1"], ["set_program", "P2"], ["set_program", "P7"], ["set_program", "PX"],
+                ["jit_compile", ""], ["exec", ""], ["exec_jit", ""]]
+    hists = [list(c) for n in range(1, 5) for c in itertools.product(alphabet, repeat=n)]
+    rnd = random.Random(ctx.seed)
+    hists += [[rnd.choice(alphabet) for _ in range(rnd.randint(5, 12))] for _ in range(200 if ctx.quick else 20000)]
+    for kind in ("raw", "fixed"):
+        for h in hists:
+            corpus.append({"t": "hist", "kind": kind, "calls": h})
+            spec.append("")
+    for n in [1, 10, 100] + list(range(500, 1100, 10)) + [5000, 60000]:
+        corpus.append({"t": "jit_small", "insns": n})
+        spec.append("contract-ok")
     for k, rec in enumerate(corpus):
         rec["n"] = k + 1
     cpath = os.path.join(ctx.workdir, "corpus.ndjson")
@@ -1261,7 +1277,7 @@ def run_C20(ctx):
     rv(["transcript", "--corpus", cpath, "--out", a], timeout=3000)
     p = core.sh([os.path.join(ROOT, "harness_nostd", "target", "debug", "rv_nostd"), "transcript", "--corpus", cpath, "--out", b], cwd=ROOT, timeout=3000)
     ctx.evaluations += 2 * len(corpus)
-    ctx.extra["corpus"] = {t: sum(1 for x in corpus if x["t"] == t) for t in ("asm", "disasm", "verdict", "run", "jit")}
+    ctx.extra["corpus"] = {t: sum(1 for x in corpus if x["t"] == t) for t in ("asm", "disasm", "verdict", "run", "jit", "hist", "jit_small")}
     ctx.extra["lines_with_specified_answer"] = sum(1 for o in spec if o)
     la, lb, ls = (open(x).read().splitlines() for x in (a, b, spath))
     attempt = 0
